@@ -70,7 +70,9 @@ def run(ctx):
                     res.violations.append({"what": "commit_type=%r gives %s, documented meaning is %s" % (variant, got, member), "input": case, "kf": None})
                     continue
                 # keep three kinds of results
-                vals = {"/a/text": "some text é", "/a/b/bytes": b"\x00\x01bytes", "/obj": {"k": [1, 2, 3]}}
+                vals = {"/a/text": "some text é", "/a/b/bytes": b"\x00\x01bytes", "/obj": {"k": [1, 2, 3]},
+                        # larger than what one dbutils.fs.head call returns (65536 bytes), characters of 2 and 3 bytes
+                        "/a/large_text": "h\u00e9\u20ac\n" * 30000, "/a/large_bytes": bytes(range(256)) * 400}
                 ret = {}
                 for i, (p, v) in enumerate(vals.items()):
                     def f(v=v):
@@ -85,7 +87,7 @@ def run(ctx):
                     except BaseException as e:
                         ret[p] = "EXC:%s:%s" % (type(e).__name__, str(e)[:80])
                     if ret[p] != v or type(ret[p]) is not type(v):
-                        res.violations.append({"what": "under commit type %s the blob for %s reads back as %r (%s)" % (member, p, ret[p], type(ret[p]).__name__), "input": case, "kf": None})
+                        res.violations.append({"what": "under commit type %s the blob for %s reads back as %.200r (%s)" % (member, p, ret[p], type(ret[p]).__name__), "input": case, "kf": None})
                 # results whose type derives from str / bytes (a str-valued enum member, a subclass of bytes): they come back as themselves
                 from .c17 import Color, Digest, TaggedStr
                 for j, v2 in enumerate([Color.RED, Digest(b"\x01\x02"), TaggedStr("t", tag=3)]):
@@ -107,6 +109,8 @@ def run(ctx):
                 if member == "FULL":
                     want["a/text"] = vals["/a/text"].encode("utf-8")
                     want["a/b/bytes"] = vals["/a/b/bytes"]
+                    want["a/large_text"] = vals["/a/large_text"].encode("utf-8")
+                    want["a/large_bytes"] = vals["/a/large_bytes"]
                     want["obj"] = "pickle"
                 bad = None
                 if set(data) != set(want):
@@ -130,7 +134,7 @@ def run(ctx):
                         lv, ok = "EXC:" + type(e).__name__, False
                     should = member in ("FULL", "LINK_ONLY")
                     if ok != should:
-                        res.violations.append({"what": "commit type %s: load(%s) gives %r (record exists: %s)" % (member, p, lv, should), "input": case, "kf": None})
+                        res.violations.append({"what": "commit type %s: load(%s) gives %.200r (record exists: %s)" % (member, p, lv, should), "input": case, "kf": None})
         # ---- the store is configured again in the same process: same directories, same dbutils object, another commit
         # type (a notebook cell that is re-run with another setting): the latest setting decides ----
         for order in (["full", "links_only", "none"], ["none", "full", "links_only"], ["links_only", "none", "full"]):
